@@ -172,11 +172,13 @@ def main(argv=None):
             else:
                 cur_sha = (rep.get("src") or {}).get("sha256")
                 changed = cur_sha is not None and bl_sha.get(rep["unit"]) not in (None, cur_sha)
-                if changed and bl_obl.get(rep["pass_name"] + "|" + name) == "discharged":
+                known_before = bl_obl.get(rep["pass_name"] + "|" + name)
+                if changed and known_before in ("discharged", None):
                     # the obligation was discharged for the committed baseline source of this function and can no longer be
                     # discharged after the function changed: reported as a violation without a failing input
                     for i in insts:
-                        i["note"] = (i.get("note") or "") + " [discharged on the baseline source %s, not dischargeable on the changed source %s]" % (bl_sha.get(rep["unit"], "?")[:12], cur_sha[:12])
+                        i["note"] = (i.get("note") or "") + " [%s on the baseline source %s, not dischargeable on the changed source %s]" % (
+                            "discharged" if known_before else "obligation did not exist", bl_sha.get(rep["unit"], "?")[:12], cur_sha[:12])
                     violations.append((name, rep["unit"], [i for i in insts if i["status"] != "discharged"], rep["pass_name"], rep.get("src")))
                 else:
                     undecided.append((rep["unit"], rep["pass_name"], {"kind": st, "msg": name + " " + "; ".join(i.get("reason", "") for i in insts if i["status"] != "discharged")[:300]}))
@@ -195,8 +197,9 @@ def main(argv=None):
         for kl in e.get("known_lines", []):
             known_lines.append(kl)
 
-    os.makedirs(os.path.join(ROOT, "replays"), exist_ok=True)
-    os.makedirs(os.path.join(ROOT, "evidence"), exist_ok=True)
+    OUT = os.environ.get("PYVC_OUT_DIR", ROOT)  # scratch runs (seeded-change trials) write elsewhere
+    os.makedirs(os.path.join(OUT, "replays"), exist_ok=True)
+    os.makedirs(os.path.join(OUT, "evidence"), exist_ok=True)
     vio_lines = []
     for n, (name, unit, insts, pname, src) in enumerate(violations):
         path = os.path.join("replays", "%s_%d.json" % (prop, n))
@@ -208,7 +211,7 @@ def main(argv=None):
         except Exception:
             outcome = {"replayed": False, "error": traceback.format_exc()[-800:]}
         rp["replay"] = outcome
-        with open(os.path.join(ROOT, path), "w") as fh:
+        with open(os.path.join(OUT, path), "w") as fh:
             json.dump(rp, fh, indent=1, default=str)
         tail = "" if (outcome and outcome.get("replayed") and outcome.get("confirmed")) else " no-failing-input-found"
         vio_lines.append("VIOLATION property=%s replay=%s obligation=%s%s" % (prop, path, name, tail))
@@ -254,7 +257,7 @@ def main(argv=None):
         cov["rule"] = "one evaluation per generated obligation (SMT query) plus the cases of the bounded stand-ins; distinct = distinct obligation names discharged + distinct bounded cases"
     ev = {"property_id": prop, "tier": a.tier if a.tier in ("quick", "thorough") else "quick", "seed": seed, "level": level,
           "coverage": cov, "assumptions": assumptions, "wall_s": round(wall, 2), "violations": len(violations)}
-    with open(os.path.join(ROOT, "evidence", "%s.json" % prop), "w") as fh:
+    with open(os.path.join(OUT, "evidence", "%s.json" % prop), "w") as fh:
         json.dump(ev, fh, indent=1, default=str)
     if a.write_baseline:
         bl = json.load(open(bl_path)) if os.path.exists(bl_path) else {}
